@@ -67,6 +67,8 @@ Inductive lpc :=
 
 Record st := mkSt {
   knd : kind;
+  nin : nat;                (* number of input channels (constant) *)
+  nout : nat;               (* number of output channels (constant) *)
   chs : list chan;          (* inputs first, then outputs *)
   prods : list prod;        (* producer k feeds channel k *)
   conss : list cons;        (* consumer j drains channel nin + j *)
@@ -81,9 +83,6 @@ Record st := mkSt {
   outs : list (list (nat * Z));   (* per output: values the call sent, tagged with their input *)
   taken : list (list Z)           (* per output: values its consumer received *)
 }.
-
-Definition nin (s : st) : nat := length (prods s).
-Definition nout (s : st) : nat := length (conss s).
 
 Inductive lab :=
 (* visible *)
@@ -103,23 +102,23 @@ Inductive lab :=
 
 (* ---- setters ---- *)
 Definition with_chs (s : st) (x : list chan) : st :=
-  mkSt (knd s) x (prods s) (conss s) (live s) (ndone s) (cases s) (pc s) (produced s) (gots s) (seen_closed s) (outs s) (taken s).
+  mkSt (knd s) (nin s) (nout s) x (prods s) (conss s) (live s) (ndone s) (cases s) (pc s) (produced s) (gots s) (seen_closed s) (outs s) (taken s).
 Definition with_prods (s : st) (x : list prod) : st :=
-  mkSt (knd s) (chs s) x (conss s) (live s) (ndone s) (cases s) (pc s) (produced s) (gots s) (seen_closed s) (outs s) (taken s).
+  mkSt (knd s) (nin s) (nout s) (chs s) x (conss s) (live s) (ndone s) (cases s) (pc s) (produced s) (gots s) (seen_closed s) (outs s) (taken s).
 Definition with_conss (s : st) (x : list cons) : st :=
-  mkSt (knd s) (chs s) (prods s) x (live s) (ndone s) (cases s) (pc s) (produced s) (gots s) (seen_closed s) (outs s) (taken s).
+  mkSt (knd s) (nin s) (nout s) (chs s) (prods s) x (live s) (ndone s) (cases s) (pc s) (produced s) (gots s) (seen_closed s) (outs s) (taken s).
 Definition with_pc (s : st) (x : lpc) : st :=
-  mkSt (knd s) (chs s) (prods s) (conss s) (live s) (ndone s) (cases s) x (produced s) (gots s) (seen_closed s) (outs s) (taken s).
+  mkSt (knd s) (nin s) (nout s) (chs s) (prods s) (conss s) (live s) (ndone s) (cases s) x (produced s) (gots s) (seen_closed s) (outs s) (taken s).
 Definition with_sel (s : st) (lv : list bool) (nd : nat) (cs : list nat) (sc : list bool) : st :=
-  mkSt (knd s) (chs s) (prods s) (conss s) lv nd cs (pc s) (produced s) (gots s) sc (outs s) (taken s).
+  mkSt (knd s) (nin s) (nout s) (chs s) (prods s) (conss s) lv nd cs (pc s) (produced s) (gots s) sc (outs s) (taken s).
 Definition with_produced (s : st) (x : list (list Z)) : st :=
-  mkSt (knd s) (chs s) (prods s) (conss s) (live s) (ndone s) (cases s) (pc s) x (gots s) (seen_closed s) (outs s) (taken s).
+  mkSt (knd s) (nin s) (nout s) (chs s) (prods s) (conss s) (live s) (ndone s) (cases s) (pc s) x (gots s) (seen_closed s) (outs s) (taken s).
 Definition with_gots (s : st) (x : list (list Z)) : st :=
-  mkSt (knd s) (chs s) (prods s) (conss s) (live s) (ndone s) (cases s) (pc s) (produced s) x (seen_closed s) (outs s) (taken s).
+  mkSt (knd s) (nin s) (nout s) (chs s) (prods s) (conss s) (live s) (ndone s) (cases s) (pc s) (produced s) x (seen_closed s) (outs s) (taken s).
 Definition with_outs (s : st) (x : list (list (nat * Z))) : st :=
-  mkSt (knd s) (chs s) (prods s) (conss s) (live s) (ndone s) (cases s) (pc s) (produced s) (gots s) (seen_closed s) x (taken s).
+  mkSt (knd s) (nin s) (nout s) (chs s) (prods s) (conss s) (live s) (ndone s) (cases s) (pc s) (produced s) (gots s) (seen_closed s) x (taken s).
 Definition with_taken (s : st) (x : list (list Z)) : st :=
-  mkSt (knd s) (chs s) (prods s) (conss s) (live s) (ndone s) (cases s) (pc s) (produced s) (gots s) (seen_closed s) (outs s) x.
+  mkSt (knd s) (nin s) (nout s) (chs s) (prods s) (conss s) (live s) (ndone s) (cases s) (pc s) (produced s) (gots s) (seen_closed s) (outs s) x.
 
 Definition set_buf (c : chan) (b : list Z) : chan := mkCh (cap c) b (closed c).
 
@@ -344,7 +343,7 @@ Definition merge_kind (n : nat) : kind :=
 
 Definition init_gen (k : kind) (incaps outcaps : list nat) : st :=
   let n := length incaps in
-  mkSt k (map (fun c => mkCh c [] false) (incaps ++ outcaps))
+  mkSt k n (length outcaps) (map (fun c => mkCh c [] false) (incaps ++ outcaps))
        (repeat (mkP [] PNone) n) (repeat (mkC 0 None) (length outcaps))
        (repeat true n) 0 (seq 0 n) LInit
        (repeat [] n) (repeat [] n) (repeat false n) (repeat [] (length outcaps)) (repeat [] (length outcaps)).
